@@ -629,6 +629,22 @@ auto fma_excl(T x, T y, T z) -> char const*
     T const u    = p + z;
     return res(fused(x, y, z)) != res(u) ? "cmath.fma.ct_unfused" : kNoTag;
 }
+// Exact ties x / y == n + 1/2 are outside the compared domain of remainder: glibc 2.36's remainder() resolves some of them
+// to the odd quotient (remainder(0x1.ef72493b3p+35, 99.0) == -49.5; IEEE 754, MPFR and therefore GCC's constant folder:
+// +49.5). etl's run-time path IS that libm function and its constant-evaluation path IS the compiler's folding, so the two
+// disagree exactly where the host libm is wrong - not a property of the library (false alarm found with VERIF_SEED=12345).
+constexpr auto remainder_tie(float x, float y) -> bool
+{
+    if (!is_fin(x) || !is_fin(y) || y == 0) { return false; }
+    float const r = mag(__builtin_fmodf(x, y));
+    return r == mag(y) - r; // exact where it can hold (r >= |y| / 2: Sterbenz), and no overflow for huge |y|
+}
+constexpr auto remainder_tie(double x, double y) -> bool
+{
+    if (!is_fin(x) || !is_fin(y) || y == 0) { return false; }
+    double const r = mag(__builtin_fmod(x, y));
+    return r == mag(y) - r;
+}
 constexpr auto rt_fmod(float x, float y) -> float { return __builtin_fmodf(x, y); }
 constexpr auto rt_fmod(double x, double y) -> double { return __builtin_fmod(x, y); }
 constexpr auto rt_remainder(float x, float y) -> float { return __builtin_remainderf(x, y); }
@@ -673,7 +689,7 @@ auto remainder_excl(T x, T y) -> char const* { return formula_excl(x, y, rt_rema
         C13_FN2(fmax_##S, "fmax." #S, "cmath", T, T, true, kNoTag, etl::fmax(x, y))                                                              \
         C13_FN2(fdim_##S, "fdim." #S, "cmath", T, T, fdim_dom(x, y), ((is_inf(x) && is_inf(y) && ((x < 0) == (y < 0))) ? "cmath.fdim.ct_inf_minus_inf" : kNoTag), etl::fdim(x, y))                                                              \
         C13_FN2(fmod_##S, "fmod." #S, "cmath", T, T, (y != 0), fmod_excl(x, y), etl::fmod(x, y)) \
-        C13_FN2(remainder_##S, "remainder." #S, "cmath", T, T, (y != 0 && !is_inf(x)), remainder_excl(x, y), etl::remainder(x, y))                                  \
+        C13_FN2(remainder_##S, "remainder." #S, "cmath", T, T, (y != 0 && !is_inf(x) && !remainder_tie(x, y)), remainder_excl(x, y), etl::remainder(x, y))                                  \
         C13_FN2(nextafter_##S, "nextafter." #S, "cmath", T, T, true, kNoTag, etl::nextafter(x, y))                                               \
         C13_FN2(midpoint_##S, "midpoint." #S, "cmath", T, T, midpoint_dom(x, y), kNoTag, etl::midpoint(x, y))                                                  \
         C13_FN3(lerp_##S, "lerp." #S, "cmath", T, T, T, lerp_dom(x, y, z), kNoTag, etl::lerp(x, y, z))                                             \
